@@ -1,7 +1,9 @@
 #!/bin/sh
-# tools/try_seed.sh <patch.diff> <PROP> [more props]: apply to /repo, run checks, revert
+# tools/try_seed.sh <patch.diff> <PROP> [more props]: apply to /repo, run checks, revert, then rewrite the evidence of
+# those properties from the unchanged tree (a run on a modified tree must never be what /verif/evidence holds)
 P="$1"; shift
 cd /repo && git apply "$P" || { echo "PATCH DOES NOT APPLY"; exit 3; }
 cd /verif
 for c in "$@"; do ./check $c | grep -E "^(VIOLATION|UNDECIDED|KNOWN|C[0-9]+:)" | cut -c1-260; echo "rc=$?"; done
-git -C /repo checkout -- . 
+git -C /repo checkout -- .
+for c in "$@"; do ./check $c >/dev/null 2>&1; done
